@@ -406,6 +406,13 @@ class Check:
     def run_proofs(self):
         ok, log = build_coq()
         self.proof = prove(self.pid)
+        if not ok:
+            # files of the development that no longer compile (the property file may then fail with a stale-library message):
+            # name them, with coqc's first error for each, so that the replay points at the proof that broke
+            errs = re.findall(r'File "\./([^"]+)", line (\d+)[^\n]*\n((?:[^\n]*\n){1,6})', log)
+            self.proof["broken_files"] = ["%s:%s: %s" % (f, ln, " ".join(t.split())[:300]) for f, ln, t in errs if "Error" in t][:6]
+            if self.proof["failing"] is not None and self.proof["broken_files"]:
+                self.proof["failing"] = "%s; first broken file of the development: %s" % (self.proof["failing"], self.proof["broken_files"][0])
         self.cov["obligations"] = self.proof["obligations"]
         self.cov["discharged"] = self.proof["discharged"]
         self.cov["checker_cmd"] = self.proof["checker_cmd"]
@@ -417,7 +424,8 @@ class Check:
 
     def proof_broken_replay(self):
         return {"kind": "proof-obligation-no-longer-checks", "property": self.pid,
-                "theorem": self.proof["failing"], "coqc_output": self.proof["log"][-3000:]}
+                "theorem": self.proof["failing"], "broken_files": self.proof.get("broken_files", []),
+                "coqc_output": self.proof["log"][-3000:]}
 
     # -- bookkeeping of explored cases
     def count(self, part, n, nontrivial_keys=(), samples=()):
